@@ -88,11 +88,11 @@ def r2(ctx):
     ctx.require(n == 4, "expected 4 span definitions, found %d" % n)
     add = ctx.func("whatshap.coverage.CovMonitor.add_read")
     loops = [x for x in walk_function(add.node) if isinstance(x, ast.For)]
-    ok = len(loops) == 1 and u(loops[0].iter) == "range(begin, end)" and len(loops[0].body) == 1 and isinstance(loops[0].body[0], ast.AugAssign) and u(loops[0].body[0].target) == "self.coverage[%s]" % u(loops[0].target) and isinstance(loops[0].body[0].op, ast.Add) and u(loops[0].body[0].value) == "1"
+    ok = (None if not loops else (len(loops) == 1 and u(loops[0].iter) == "range(begin, end)" and len(loops[0].body) == 1 and isinstance(loops[0].body[0], ast.AugAssign) and u(loops[0].body[0].target) == "self.coverage[%s]" % u(loops[0].target) and isinstance(loops[0].body[0].op, ast.Add) and u(loops[0].body[0].value) == "1"))
     ctx.ob(add.qual, "add-increments-half-open-span-once", ok, add.loc(), "coverage[i] += 1 for i in range(begin, end)" if ok else "CovMonitor.add_read does not add 1 to exactly range(begin, end)")
     mx = ctx.func("whatshap.coverage.CovMonitor.max_coverage_in_range")
     ret = [x for x in walk_function(mx.node) if isinstance(x, ast.Return)]
-    ok = len(ret) == 1 and u(ret[0].value) == "max(self.coverage[begin:end])"
+    ok = (None if not ret else (len(ret) == 1 and u(ret[0].value) == "max(self.coverage[begin:end])"))
     ctx.ob(mx.qual, "max-over-the-same-span", ok, mx.loc(), "max_coverage_in_range = max(coverage[begin:end])" if ok else "max_coverage_in_range is %s" % (u(ret[0].value) if ret else "?"))
     # coverage never decreases (needed for 'rejected once, rejected forever')
     cls = ctx.prog.cls("whatshap.coverage.CovMonitor")
@@ -197,10 +197,10 @@ def r4(ctx):
     rs = ctx.func(RS + ".readselection")
     ud = [v for s, v in util.assignments_to(rs.node, "undecided_reads") if isinstance(v, ast.AST)]
     pyr = util.params_of(rs.node)[0]
-    ok = len(ud) == 1 and u(ud[0]) == "set(range(len(%s)))" % pyr
+    ok = (None if not ud else (len(ud) == 1 and u(ud[0]) == "set(range(len(%s)))" % pyr))
     ctx.ob(rs.qual, "candidates-are-the-read-indices", ok, rs.loc(), "undecided_reads = set(range(len(readset)))" if ok else "undecided_reads is %s" % [u(v) for v in ud])
     rets = [n for n in walk_function(rs.node) if isinstance(n, ast.Return)]
-    ok = len(rets) == 1 and u(rets[0].value) == "selected_reads"
+    ok = (None if not rets else (len(rets) == 1 and u(rets[0].value) == "selected_reads"))
     ctx.ob(rs.qual, "returns-selected", ok, rs.loc(), "readselection returns selected_reads" if ok else "readselection returns %s" % (u(rets[0].value) if rets else "?"))
     # in the caller, the selection only ever receives what the helper returned (the helper counts every read it selects)
     bad = []
@@ -243,15 +243,15 @@ def r4(ctx):
             okg = okg and len(d) == 1 and u(d[0][1]) == "pq.pop()" and d[0][2] == 1
     ctx.ob(h.qual, "selected-only-from-queue", okg, h.loc(), "selected_reads only receives slice results and items popped from the queue" if okg else "selected_reads receives something that did not come from the queue")
     pqs = [c for c in ctx.prog.calls_in(h.node) if u(c.func) == "_construct_priorityqueue"]
-    ok = len(pqs) == 2 and all(u(c.args[1]) == "undecided_reads" for c in pqs)
+    ok = (None if not pqs else (len(pqs) == 2 and all(u(c.args[1]) == "undecided_reads" for c in pqs)))
     ctx.ob(h.qual, "queues-built-from-undecided", ok, h.loc(), "both queues are built from undecided_reads" if ok else "a queue is built from something other than undecided_reads")
     sl = ctx.func(RS + "._slice_read_selection")
     mi = [v for s, v in util.assignments_to(sl.node, "max_item") if isinstance(v, ast.AST)]
-    ok = len(mi) == 1 and u(mi[0]) == "entry.second" and u(util.single_def(sl.node, "entry")) == "pq.c_pop()"
+    ok = (None if not mi else (len(mi) == 1 and u(mi[0]) == "entry.second" and u(util.single_def(sl.node, "entry")) == "pq.c_pop()"))
     ctx.ob(sl.qual, "slice-items-popped-from-queue", ok, sl.loc(), "the slice only handles items popped from the queue" if ok else "max_item does not come from pq.c_pop()")
     cp = ctx.func(RS + "._construct_priorityqueue")
     loops = [n for n in walk_function(cp.node) if isinstance(n, ast.For)]
-    ok = len(loops) == 1 and u(loops[0].iter) == util.params_of(cp.node)[1] and any(u(c.func) == "priorityqueue.c_push" and u(c.args[1]) == u(loops[0].target) for c in ctx.prog.calls_in(cp.node))
+    ok = (None if not loops else (len(loops) == 1 and u(loops[0].iter) == util.params_of(cp.node)[1] and any(u(c.func) == "priorityqueue.c_push" and u(c.args[1]) == u(loops[0].target) for c in ctx.prog.calls_in(cp.node))))
     ctx.ob(cp.qual, "queue-items-are-the-given-indices", ok, cp.loc(), "every given index is pushed as item" if ok else "queue construction changed")
     sr = ctx.func(PH + ".select_reads")
     rets = [n for n in walk_function(sr.node) if isinstance(n, ast.Return)]
@@ -301,7 +301,7 @@ def r5(ctx):
     ctx.ob(val.qual, "cap-limited-to-23", ok, val.loc(), "validate rejects --internal-downsampling above 23" if ok else "validate no longer rejects max_coverage > 23")
     aa = ctx.func(PH + ".add_arguments")
     dest = [c for c in ctx.prog.calls_in(aa.node) if any(k.arg == "dest" and isinstance(k.value, ast.Constant) and k.value.value == "max_coverage" for k in c.keywords)]
-    ok = len(dest) == 1 and any(isinstance(a, ast.Constant) and a.value == "--internal-downsampling" for a in dest[0].args) and any(k.arg == "type" and u(k.value) == "int" for k in dest[0].keywords)
+    ok = (None if not dest else (len(dest) == 1 and any(isinstance(a, ast.Constant) and a.value == "--internal-downsampling" for a in dest[0].args) and any(k.arg == "type" and u(k.value) == "int" for k in dest[0].keywords)))
     ctx.ob(aa.qual, "option-feeds-max_coverage", ok, aa.loc(), "--internal-downsampling is the integer option stored as max_coverage" if ok else "--internal-downsampling no longer maps to max_coverage")
 
 
